@@ -1,5 +1,6 @@
 import GV.Model.DmqAuth
 import GV.Model.DmqSym
+import GV.Gen.DmqAuthFacts
 /-!
 C46 — DMQ messages are accepted only when fully authenticated.
 
@@ -279,6 +280,85 @@ theorem cert_binds_fields (sgn : Key → Key → Nat → Nat → Sig)
     rw [hs, e1] at e2
     obtain ⟨a1, a2, a3, a4⟩ := hinj _ _ _ _ _ _ _ _ e2
     exact hne ⟨a1.symm, a2.symm, a3.symm, a4.symm⟩
+
+/-! ### regenerated source facts
+
+The order of the five steps, the byte lengths they compare against, the rotation comparison and
+the slots-per-KES-period constant are read off protocol/common/authentication.go on every run
+(extract/facts_g8.go); the model was written against exactly these. A reordered step, a changed
+length or a `<` turned into `<=` in the Go source breaks this obligation without any test input. -/
+theorem source_facts :
+    GV.Gen.DmqAuthFacts.steps =
+      ["verifyMessageID", "verifyOperationalCertificate", "verifyKESSignature", "computePoolID",
+       "verifyKESPeriodRotation"] ∧
+    GV.Gen.DmqAuthFacts.internalConds =
+      ["m.disableValidation", "msg == nil", "err != nil", "err != nil", "err != nil", "!registered",
+       "err != nil"] ∧
+    GV.Gen.DmqAuthFacts.verifyMessageID_lens =
+      [("messageID", "==", "0"), ("messageID", "!=", "blake2b.Size256")] ∧
+    GV.Gen.DmqAuthFacts.verifyOperationalCertificate_lens =
+      [("coldVerificationKey", "!=", "32"), ("opcert.ColdSignature", "!=", "64")] ∧
+    GV.Gen.DmqAuthFacts.verifyKESSignature_lens =
+      [("msg.KESSignature", "!=", "448"), ("msg.OperationalCertificate.KESVerificationKey", "!=", "32")] ∧
+    GV.Gen.DmqAuthFacts.rotationConds = ["exists && opcert.IssueNumber < lastOpCertNumber"] ∧
+    GV.Gen.DmqAuthFacts.slotsPerKesPeriod = "129600" ∧
+    (newAuth : Auth Nat Nat Nat Nat).slotsPerKesPeriod = 129600 := by
+  decide
+
+/-! ### TTL validator -/
+
+/-- The TTL check accepts exactly the messages that have not expired and do not expire later than
+    `now + maxTTL` (capped at the largest `uint32`); nothing wraps, for any clock value. -/
+theorem ttl_ok_iff (maxTTL : Nat) (nowUnix : Int) (expiresAt : Nat) :
+    validateTTLAt false maxTTL nowUnix expiresAt = .ok ↔
+      nowUnix ≤ (maxU32 : Int) ∧ nowUnix ≤ (expiresAt : Int) ∧
+      (expiresAt : Int) ≤ max nowUnix 0 + maxTTL ∧ expiresAt ≤ maxU32 := by
+  unfold validateTTLAt maxU32
+  by_cases h1 : nowUnix > ((4294967295 : Nat) : Int)
+  · simp only [Bool.false_eq_true, if_false, h1, if_true]
+    constructor
+    · intro h; cases h
+    · intro h; omega
+  · by_cases h2 : nowUnix < 0
+    · simp only [Bool.false_eq_true, if_false, h1, h2, if_true]
+      by_cases h3 : 0 > expiresAt
+      · omega
+      · simp only [h3, if_false]
+        by_cases h4 : expiresAt > min (0 + maxTTL) 4294967295
+        · simp only [h4, if_true]
+          constructor
+          · intro h; cases h
+          · intro h; omega
+        · simp only [h4, if_false, true_iff]
+          omega
+    · simp only [Bool.false_eq_true, if_false, h1, h2]
+      by_cases h3 : nowUnix.toNat > expiresAt
+      · simp only [h3, if_true]
+        constructor
+        · intro h; cases h
+        · intro h; omega
+      · simp only [h3, if_false]
+        by_cases h4 : expiresAt > min (nowUnix.toNat + maxTTL) 4294967295
+        · simp only [h4, if_true]
+          constructor
+          · intro h; cases h
+          · intro h; omega
+        · simp only [h4, if_false, true_iff]
+          omega
+
+/-- an expired message is never accepted by an enabled validator -/
+theorem ttl_expired_rejected (maxTTL : Nat) (nowUnix : Int) (expiresAt : Nat)
+    (h : (expiresAt : Int) < nowUnix) : validateTTLAt false maxTTL nowUnix expiresAt = .expired := by
+  unfold validateTTLAt maxU32
+  by_cases h1 : nowUnix > ((4294967295 : Nat) : Int)
+  · simp only [Bool.false_eq_true, if_false, h1, if_true]
+  · have h2 : ¬ nowUnix < 0 := by omega
+    have h3 : nowUnix.toNat > expiresAt := by omega
+    simp [h1, h2, h3]
+
+example : validateTTLAt false 1800 1700000000 1700001800 = .ok := by decide
+example : validateTTLAt false 1800 1700000000 1700001801 = .tooFar := by decide
+example : validateTTLAt false 1800 4294967296 4294967295 = .expired := by decide
 
 /-! ### non-vacuity on the symbolic instance -/
 open GV.Model.DmqSym
